@@ -38,6 +38,7 @@ type c05cell struct {
 	noReply bool    // the request has no reply when it succeeds
 	anyOf   []int   // effect 0 is governed by "at least one of these" (targets whose kind the protocol does not pin down)
 	mayFail bool    // with every governing privilege held the request may still be refused (e.g. a target that cannot be resolved)
+	reveal  bool    // only "the effect is not observed without the privilege" is claimed (a request whose odd form the server may read either way)
 	run     func(x *c05ctx) (*hlref.Tran, []bool)
 }
 
@@ -334,6 +335,28 @@ var c05cells = []c05cell{
 	uploadFolderCell("upload-folder:elsewhere", []int{hlref.PrivUploadFolder, hlref.PrivUploadAnywhere}, p1("other")),
 	uploadFolderCell("upload-folder:root", []int{hlref.PrivUploadFolder, hlref.PrivUploadAnywhere}, nil),
 	replyCell("list-files:dropbox", []int{hlref.PrivViewDropBoxes}, hlref.TranGetFileNameList, hlref.FFileNameWithInfo, func(x *c05ctx) []hlref.Field { return []hlref.Field{fld(hlref.FFilePath, p1("Drop Box"))} }),
+	// a list request that names the drop box in a file-name field (which the request type does not have): whichever
+	// folder the server takes it to mean, the drop box's content is shown only to those who may see drop boxes
+	{name: "list-files:dropbox-in-name-field", effects: [][]int{{hlref.PrivViewDropBoxes}}, reveal: true, run: func(x *c05ctx) (*hlref.Tran, []bool) {
+		r := x.req.Request(hlref.TranGetFileNameList, sfld(hlref.FFileName, "Drop Box"))
+		seen := false
+		if r != nil {
+			for _, d := range r.GetAll(hlref.FFileNameWithInfo) {
+				seen = seen || bytes.Contains(d, []byte("secret.txt"))
+			}
+		}
+		return r, []bool{seen}
+	}},
+	{name: "list-files:nested-dropbox-in-name-field", effects: [][]int{{hlref.PrivViewDropBoxes}}, reveal: true, run: func(x *c05ctx) (*hlref.Tran, []bool) {
+		r := x.req.Request(hlref.TranGetFileNameList, fld(hlref.FFilePath, p1("dir")), sfld(hlref.FFileName, "Drop Box"))
+		seen := false
+		if r != nil {
+			for _, d := range r.GetAll(hlref.FFileNameWithInfo) {
+				seen = seen || bytes.Contains(d, []byte("hidden.txt"))
+			}
+		}
+		return r, []bool{seen}
+	}},
 	replyCell("list-files:nested-dropbox", []int{hlref.PrivViewDropBoxes}, hlref.TranGetFileNameList, hlref.FFileNameWithInfo, func(x *c05ctx) []hlref.Field { return []hlref.Field{fld(hlref.FFilePath, p1("dir", "Drop Box"))} }),
 	replyCell("list-files:root", nil, hlref.TranGetFileNameList, hlref.FFileNameWithInfo, nil),
 	replyCell("list-files:folder", nil, hlref.TranGetFileNameList, hlref.FFileNameWithInfo, func(x *c05ctx) []hlref.Field { return []hlref.Field{fld(hlref.FFilePath, p1("dir"))} }),
@@ -673,6 +696,16 @@ func c05run(rt *rapid.T, cell *c05cell, bits hlref.Access, via ...string) bool {
 		reply, observed := cell.run(x)
 
 		ctx := fmt.Sprintf("cell %s, requester privileges %v (needs %v)", cell.name, definedSet(bits), cell.effects)
+		if cell.reveal {
+			held := true
+			for _, n := range cell.effects[0] {
+				held = held && bits.Has(n)
+			}
+			if observed[0] && !held {
+				rt.Fatalf("%s: the protected data was revealed without privilege %v (reply %s)", ctx, cell.effects[0], replySummary(reply))
+			}
+			return
+		}
 		if len(cell.anyOf) > 0 {
 			anyHeld := false
 			for _, n := range cell.anyOf {
